@@ -1,5 +1,58 @@
+import BlockCiphers.Proofs.BlowfishSpec
 /-
-C14 — theorem file (property theorems only).  Filled in as the models it needs are merged; see DESIGN §7 C14.
+C14 — bcrypt (eksblowfish) key-setup primitives follow Provos–Mazières
+GENERATED statement file (tools/gen_thm.py): every theorem below restates, verbatim, a theorem of a Proofs/ module
+and is proved by applying it.  ONLY property theorems and non-vacuity examples live in Thm/.
 -/
-namespace BC.Thm.C14
-end BC.Thm.C14
+
+namespace BC.Blowfish
+/-- the 4-entries-per-pass S loop with the running salt offset = the reference 2-entries loop with
+the salt indexed as a cyclic stream of big-endian words; every non-empty salt and key (any lengths,
+also not multiples of 4) -/
+theorem C14.salted_expand_key_eq_spec (st : State) (salt key : Array (BitVec 8))
+    (hs : 0 < salt.size) (hk : 0 < key.size) :
+    salted_expand_key st salt key = Spec.expandKey st salt key :=
+  _root_.BC.Blowfish.salted_expand_key_eq_spec st salt key hs hk
+end BC.Blowfish
+
+namespace BC.Blowfish
+/-- for every salt consisting of zero bytes only: the unsalted key expansion is the salted one.
+(The Rust panics on an empty salt or key — `next_u32_wrap` indexes `buf[0]` — so on the Rust side the
+statement is about `salt.len() ≥ 1`, `key.len() ≥ 1`; the total model satisfies it for all lengths.) -/
+theorem C14.bc_expand_key_eq_salted (st : State) (salt key : Array (BitVec 8)) (hz : ∀ i : Nat, salt[i]! = 0#8) :
+    bc_expand_key st key = salted_expand_key st salt key :=
+  _root_.BC.Blowfish.bc_expand_key_eq_salted st salt key hz
+end BC.Blowfish
+
+namespace BC.Blowfish
+/-- the salt-length condition made explicit: `n` zero bytes, any `n` (the Rust needs `n ≥ 1`) -/
+theorem C14.bc_expand_key_eq_salted_zeros (st : State) (n : Nat) (key : Array (BitVec 8)) :
+    bc_expand_key st key = salted_expand_key st (Array.replicate n 0#8) key :=
+  _root_.BC.Blowfish.bc_expand_key_eq_salted_zeros st n key
+end BC.Blowfish
+
+namespace BC.Blowfish
+/-- the state of `Blowfish::new(key)` is `bc_expand_key` applied to `bc_init_state` -/
+theorem C14.new_eq_bc_expand_key (key : Array (BitVec 8)) (h : accepts key.size = true) :
+    new key = some (bc_expand_key bc_init_state key) :=
+  _root_.BC.Blowfish.new_eq_bc_expand_key key h
+end BC.Blowfish
+
+namespace BC.Blowfish
+theorem C14.bc_encrypt_eq_encrypt (st : State) (x : LR) : bc_encrypt st x = encrypt st x :=
+  _root_.BC.Blowfish.bc_encrypt_eq_encrypt st x
+end BC.Blowfish
+
+namespace BC.Blowfish
+theorem C14.bc_encrypt_eq_spec (st : State) (x : LR) : bc_encrypt st x = Spec.encrypt st x :=
+  _root_.BC.Blowfish.bc_encrypt_eq_spec st x
+end BC.Blowfish
+
+namespace BC.Blowfish
+/-- every finite sequence of (non-panicking) primitive calls, from every starting state, gives the same
+states and outputs in the crate's model as in the published algorithm — the cost loop of bcrypt
+(`2^cost` × `expand key; expand salt`) is one instance -/
+theorem C14.history_eq_spec (ops : List Op) (hv : ∀ o ∈ ops, o.valid) (h : Hist) :
+    ops.foldl implStep h = ops.foldl specStep h :=
+  _root_.BC.Blowfish.history_eq_spec ops hv h
+end BC.Blowfish
